@@ -15,6 +15,8 @@
 package goleveldb
 
 import (
+	"bytes"
+
 	"github.com/blevesearch/goleveldb/leveldb"
 	"github.com/blevesearch/goleveldb/leveldb/util"
 	store "github.com/blevesearch/upsidedown_store_api"
@@ -59,6 +61,11 @@ func (r *Reader) PrefixIterator(prefix []byte) store.KVIterator {
 }
 
 func (r *Reader) RangeIterator(start, end []byte) store.KVIterator {
+	if start != nil && end != nil && bytes.Compare(start, end) > 0 {
+		// nothing is >= start and < end; goleveldb panics on such a
+		// range once the data lives in sorted table files
+		end = start
+	}
 	byteRange := &util.Range{
 		Start: start,
 		Limit: end,
